@@ -59,6 +59,7 @@ func (x *gg) term() *rt.Term {
 }
 
 var listTokens = []*rt.Term{rt.A("[]"), rt.A("[]"), rt.List([]*rt.Term{rt.A("a")}, nil), rt.List([]*rt.Term{rt.A("[]")}, nil)}
+
 func (x *gg) arg() *rt.Term {
 	switch k := x.n(0, 9, "arg"); {
 	case k < 5:
